@@ -37,6 +37,14 @@ AVOID = {
 }
 
 EMPHASIS = {
+    8: ("Prefer a change in SHARED INFRASTRUCTURE whose effect reaches this property only indirectly and only for some shapes / sizes: helpers in "
+        "geometer/utils/math.py or geometer/utils/indexing.py, Tensor / TensorCollection construction in geometer/base.py (nested lists, other tensors as "
+        "arguments, copy=False, the `covariant` argument, tensor_rank), `__getitem__` with ellipsis / None / boolean masks / index arrays / negative steps, "
+        "`expand_dims`, `flat`, `size`, `__len__`, `__eq__`, or the handling of constructor arguments of the classes this property names (keyword arguments, "
+        "scalar vs. array arguments, argument counts). Or the interplay of a subclass override with its base class. The violation may need a specific SIZE "
+        "or SHAPE: a polygon with six or more vertices, a polyhedron with non-triangular faces, a collection with two or three collection axes or with a "
+        "single element or with a prime number of elements, an ambient dimension of four or more where the code is generic in the dimension. "
+        "Do NOT use memoisation / caching of properties, and do not mutate an argument in place."),
     7: ("Prefer a change that only matters for one of these valid but rarely exercised inputs: complex coordinates (complex points on a real line, "
         "complex lines, complex scale factors of a representative, the circular points), points / lines / planes at infinity among the arguments, "
         "objects through the origin or on a coordinate axis or plane, the projective line (1D points), objects whose coordinate array contains exact "
